@@ -16,6 +16,9 @@ def run_one(run, drv, P, scratch, params):
 
 def static_deps(run, P, params):
     """what Task.dependencies()/can_run() report vs the results the task really reads (measured by a cache-free sequential run)"""
+    for fname, k, got, exp in P.get('seq_arg_diffs', [])[:2]:
+        X.fail_case(run, 'wrong-arguments', 'single worker: %s(k=%s) received %s; the stored results of its producers with the tasklet operations applied (= the same text as plain Python) give %s'
+                    % (fname, k, got[:200], exp[:200]), P, params)
     for i, inf in enumerate(P['info']):
         missing = sorted(set(inf['reads']) - set(inf['reported']))
         if missing:
@@ -39,11 +42,11 @@ def check(run):
     try:
         nprog = 32 if quick else 200
         from jugverif import genprog
-        fixed = genprog.single_link_programs()
+        fixed = genprog.single_link_programs() + genprog.late_fill_programs()
         for pi in range(nprog + len(fixed)):
             if pi < len(fixed):
                 # every embedding kind as the ONLY link between a producer and a consumer
-                P = E.analyse_text(fixed[pi].text, scratch, fixed[pi].embed)
+                P = E.analyse_text(fixed[pi].text, scratch, fixed[pi].embed, plain_ok=not getattr(fixed[pi], 'late', False))
             else:
                 P = E.prepare(rng, scratch, rng.choice([6, 9, 12]) if quick else rng.choice([6, 9, 12, 20, 30]), want=genprog.RARE[pi % len(genprog.RARE)])
             for k, v in P['embed'].items():
